@@ -817,6 +817,10 @@ func (env *SpecEnv) call(x *CExpr) (SVal, error) {
 		if a.Sort == "Slice" {
 			t = app("sbase", a.T)
 		}
+		if a.Sort == "Iface" {
+			W.declare("iref", "(declare-fun iref (Iface) Int)")
+			t = app("iref", a.T)
+		}
 		oldAlloc := "alloc@0"
 		if v, ok := env.oldHeap["alloc"]; ok {
 			oldAlloc = v
@@ -832,6 +836,10 @@ func (env *SpecEnv) call(x *CExpr) (SVal, error) {
 		if a.Sort == "Slice" {
 			t = app("sbase", a.T)
 		}
+		if a.Sort == "Iface" {
+			W.declare("iref", "(declare-fun iref (Iface) Int)")
+			t = app("iref", a.T)
+		}
 		W.needRoot()
 		return SVal{T: app("<=", app("root", t), env.heapOf(e.allocComp())), Typ: boolT, Sort: "Bool"}, nil
 	case "typeis": // typeis(x, T): dynamic type of interface x is T
@@ -842,6 +850,12 @@ func (env *SpecEnv) call(x *CExpr) (SVal, error) {
 		t, err := e.evalType(x.Args[1].String(), env.pkg)
 		if err != nil {
 			return SVal{}, err
+		}
+		if types.IsInterface(t) {
+			// same predicate as an interface-to-interface type assertion in the code
+			pn := "implements!" + sanitize(shortTypeName(t))
+			W.declare(pn, fmt.Sprintf("(declare-fun %s (Int) Bool)\n(assert (not (%s 0)))", pn, pn))
+			return SVal{T: app(pn, app("itag", a.T)), Typ: boolT, Sort: "Bool"}, nil
 		}
 		return SVal{T: sEq(app("itag", a.T), fmt.Sprint(W.typeTag(t))), Typ: boolT, Sort: "Bool"}, nil
 	case "unbox": // unbox(x, T)
